@@ -359,6 +359,12 @@ def finish(module, prop, args, seed, shards, results, skipped, wall):
     if last_case is not None:
         samples.append(last_case)
 
+    if hasattr(module, 'finalize'):
+        # cross-shard oracles (e.g. exact uniformity by counting over a complete enumeration)
+        complete = not skipped and not harness_errors and not args.only
+        for sig, case, msg in module.finalize(dict(counters), args.tier, complete) or []:
+            fails.setdefault(sig, {'case': jsonable(case), 'msg': str(msg)[:2000], 'count': 0})
+            fails[sig]['count'] += 1
     known, _fixed = load_known()
     known_seen, new = [], []
     for sig in sorted(fails):
